@@ -12,6 +12,7 @@ package rostdio
 //@   binds ctx destination reader
 //@   calls CompleteWithContext ErrorWithContext NextWithContext Read
 //@   params ctx destination
+//@   scope ctx destination makeslice reader
 //@   track destination.* loop.*
 //@   ensures [data-returned-with-the-last-read-is-delivered-first|C18] res(reader.Read, 0) > 0 && res(reader.Read, 1) == global_EOF ==> trace(loop.L0, destination.NextWithContext(ctx, _), destination.CompleteWithContext(ctx))
 //@   ensures [data-then-the-reader's-error|C18] res(reader.Read, 0) > 0 && res(reader.Read, 1) != global_EOF ==> trace(loop.L0, destination.NextWithContext(ctx, _), destination.ErrorWithContext(ctx, res(reader.Read, 1)))
@@ -30,6 +31,7 @@ package rostdio
 //@   binds ctx destination
 //@   calls CompleteWithContext ErrorWithContext NewReader NextWithContext ReadLine
 //@   params ctx destination
+//@   scope ctx destination reader slicelit
 //@   track destination.* loop.* call.NewReader
 //@   ensures [end-of-input-completes|C18] res(call.Reader.ReadLine, 2) == global_EOF ==> called(destination.CompleteWithContext) && !called(destination.ErrorWithContext) && arg(destination.CompleteWithContext, 0) == ctx
 //@   ensures [a-read-error-is-forwarded|C18] res(call.Reader.ReadLine, 2) != global_EOF ==> called(destination.ErrorWithContext) && !called(destination.CompleteWithContext) && arg(destination.ErrorWithContext, 0) == ctx && arg(destination.ErrorWithContext, 1) == res(call.Reader.ReadLine, 2)
@@ -46,6 +48,7 @@ package rostdio
 //@   binds ctx destination
 //@   calls CompleteWithContext ErrorWithContext NewReader NextWithContext ReadLine WriteString
 //@   params ctx destination
+//@   scope ctx destination prompt
 //@   maypanic
 //@   track destination.* loop.* call.NewReader
 //@   ensures [one-reader-for-the-subscription|C18] count(call.NewReader) == 1 && arg(call.NewReader, 0) == global_Stdin && before(call.NewReader, loop.L0)
@@ -62,6 +65,7 @@ package rostdio
 
 //@ operator NewIOWriter
 //@   props C18 C09
+//@   scope count ctx destination err source subscriberCtx value writer
 //@   ghost n int = 0
 //@   inv count == n
 //@   track writer.Write
@@ -72,6 +76,7 @@ package rostdio
 
 //@ operator NewStdWriter
 //@   props C18 C09
+//@   scope count ctx destination err source subscriberCtx value
 //@   ghost n int = 0
 //@   inv count == n
 //@   track call.File.Write
